@@ -735,6 +735,10 @@ def _composite_keystone_aperture(x, y, center_circle_diameter,
             # may be outside the usual corners
             lo = angle
             hi = angle+arc_rad
+            while lo < -np.pi:
+                # negative rotation; bring the segment back to [-pi, 3pi)
+                lo = lo + 2*np.pi
+                hi = hi + 2*np.pi
             while hi > 2*np.pi:
                 hi = hi - 2*np.pi
             while lo > 2*np.pi:
